@@ -232,6 +232,8 @@ def col_eval(m, c):
 class SIndex:
     """row labels of an SFrame/SSeries (integer labels, possibly symbolic)"""
 
+    is_range = False   # True when pandas would represent these labels as a RangeIndex (slice of a default index)
+
     def __init__(self, arr, name=None):
         self.arr = arr if isinstance(arr, SArr) else _A(arr)
         self.name = name
@@ -266,6 +268,18 @@ class SIndex:
 
     def __symeval__(self, m):
         return self.arr.__symeval__(m)
+
+
+class _RangeIndexMeta(type):
+    def __instancecheck__(cls, o):
+        return isinstance(o, _pd.RangeIndex) or (isinstance(o, SIndex) and o.is_range)
+
+    def __call__(cls, *a, **kw):
+        return _pd.RangeIndex(*a, **kw)
+
+
+class RangeIndex(metaclass=_RangeIndexMeta):
+    """pd.RangeIndex as seen by the code under test: real range indexes and model indexes obtained by slicing a default index"""
 
 
 def _mk_index(index, n):
@@ -835,6 +849,8 @@ class SFrame:
 
     @index.setter
     def index(self, v):
+        if len(v) != len(self):
+            raise ValueError(f"Length mismatch: Expected axis has {len(self)} elements, new values have {len(v)} elements")
         if isinstance(v, _pd.RangeIndex) and v.start == 0 and v.step == 1:
             self._index = None
         else:
@@ -1224,7 +1240,10 @@ class _ILoc:
         if isinstance(k, tuple):
             raise Inconclusive("iloc[rows, cols]")
         if isinstance(k, slice):
-            return obj._rows(list(range(n))[_cslice(k)])
+            r = obj._rows(list(range(n))[_cslice(k)])
+            if (obj._index is None or (isinstance(obj._index, SIndex) and obj._index.is_range)) and isinstance(r._index, SIndex):
+                r._index.is_range = True   # a slice of a range index is a range index
+            return r
         if isinstance(k, SSeries):
             k = k._col
         if hasattr(k, "__sarr__"):
@@ -1541,17 +1560,62 @@ class Categorical(metaclass=_CatMeta):
     pass
 
 
+def _align_rows(frames):
+    """pd.concat(axis=1) joins on the row labels (outer, first frame's order, then unseen labels): frames whose labels are equal
+    position by position pass through; otherwise rows are re-ordered by label and missing rows become NaN"""
+    ias = [_index_arr(f._index, len(f)) for f in frames]
+    if _b_all(f._index is None for f in frames) and len({len(f) for f in frames}) == 1:
+        return frames
+    if not _b_all(isinstance(a, SArr) for a in ias):
+        if _b_all(not isinstance(a, SArr) for a in ias) and _b_all(list(a) == list(ias[0]) for a in ias):
+            return frames
+        raise Inconclusive("concat(axis=1) over mixed label kinds")
+    same = _b_all(len(a) == len(ias[0]) for a in ias) and _b_all(
+        builtins.bool(and_(*[x == y for x, y in zip(a.items, ias[0].items)])) for a in ias[1:])
+    if same:
+        return frames
+    labs = []
+    for a in ias:
+        row = []
+        for x in a.items:
+            if isinstance(x, SInt):
+                x = concretize(x)
+            row.append(builtins.int(x))
+        if len(set(row)) != len(row):
+            raise Inconclusive("concat(axis=1) with repeated row labels")
+        labs.append(row)
+    union = []
+    for row in labs:
+        for x in row:
+            if x not in union:
+                union.append(x)
+    out = []
+    for f, row in zip(frames, labs):
+        pos = {x: i for i, x in enumerate(row)}
+        g = SFrame()
+        for k, c in f._cols.items():
+            if _b_all(x in pos for x in union):
+                g._cols[k] = col_take(c, [pos[x] for x in union])
+            else:
+                if not isinstance(c, SArr):
+                    raise Inconclusive("concat(axis=1): missing rows in a non-numeric column")
+                g._cols[k] = SArr([c.items[pos[x]] if x in pos else builtins.float("nan") for x in union], "float64")
+        g._index = SIndex(SArr(union, "int64"))
+        out.append(g)
+    return out
+
+
 def concat(objs, axis=0, ignore_index=False, **kw):
     objs = [o for o in objs if o is not None]
     if not objs:
         raise ValueError("No objects to concatenate")
     objs = [SFrame(o) if isinstance(o, _pd.DataFrame) else (SSeries(o) if isinstance(o, _pd.Series) else o) for o in objs]
     if axis in (1, "columns"):
+        objs = [o.to_frame() if isinstance(o, SSeries) else o for o in objs]
+        objs = _align_rows(objs)
         r = SFrame()
         n = None
         for o in objs:
-            if isinstance(o, SSeries):
-                o = o.to_frame()
             if n is not None and len(o) != n:
                 raise Inconclusive("concat(axis=1) with different lengths")
             n = len(o)
